@@ -69,6 +69,8 @@ def pair_cases():
             "cell": st.lists(st.lists(st.integers(-2, 2), min_size=3, max_size=3), min_size=8, max_size=8),
             "nearhalf": st.booleans(),
             "vel": st.lists(vec3(-5.0, 5.0), min_size=8, max_size=8),
+            # an unbounded axis: the engines report an infinite box length for a non-periodic dimension (slab geometries)
+            "inf_axis": st.sampled_from([None, None, None, 0, 1, 2]),
         }
     )
     return st.fixed_dictionaries(d)
@@ -87,19 +89,25 @@ def body_pair(rec, c):
         # separation close to (but not at) half a box length along x
         frac[j] = frac[i] + np.array([0.4999, 0.1, -0.2])
     pos = frac * L + np.array(c["cell"][:n]) * L  # atoms may sit in different periodic images
+    ia = c.get("inf_axis")
+    if ia is not None:
+        L = L.copy()
+        L[ia] = np.inf  # positions along that axis stay where the finite length put them; no images along it
     vel = np.array(c["vel"][:n])
     box3 = L.copy()
     box9 = np.concatenate([L, np.zeros(6)])
     box = box9 if c["box9"] else box3
     raw = pos[j] - pos[i]
-    mi = raw - np.round(raw / L) * L
+    Lfin = np.where(np.isinf(L), 1.0, L)
+    mi = np.where(np.isinf(L), raw, raw - np.round(raw / Lfin) * Lfin)
     if np.linalg.norm(mi) < 1e-6 or np.linalg.norm(raw) < 1e-6:
         rec.case(key=None, classes=["pair:coincident-skip"])  # distance rate undefined for coincident atoms
         return
-    margin_ok = bool(np.all(np.abs(np.abs(mi) - L / 2) > 1e-6 * L))  # away from the half-box tie
-    shift = np.array(c["shifts"][:n]) * L
+    margin_ok = bool(np.all(np.isinf(L) | (np.abs(np.abs(mi) - Lfin / 2) > 1e-6 * Lfin)))  # away from the half-box tie
+    shift = np.array(c["shifts"][:n]) * np.where(np.isinf(L), 0.0, L)
     big_shift = bool(np.any(np.abs((pos + shift)[j] - (pos + shift)[i]) > L / 2))
-    classes = ["pair", "pair:box9" if c["box9"] else "pair:box3"]
+    Lmax = float(Lfin.max())
+    classes = ["pair", "pair:box9" if c["box9"] else "pair:box3"] + (["pair:unbounded-axis"] if ia is not None else [])
     if c["nearhalf"]:
         classes.append("pair:near-half-box")
     if big_shift:
@@ -124,7 +132,7 @@ def body_pair(rec, c):
     w = pbc_dist_coordinate(raw.copy(), L)
     rec.check(bool(np.all(np.abs(w) <= L / 2 * (1 + 1e-12))), "pbc:exceeds-half-box", f"d={raw.tolist()} L={L.tolist()} -> {w.tolist()}")
     if margin_ok:
-        rec.check(bool(np.allclose(w, mi, rtol=0, atol=1e-9 * float(L.max()))), "pbc:not-minimum-image", f"d={raw.tolist()} L={L.tolist()} -> {w.tolist()} want {mi.tolist()}")
+        rec.check(bool(np.allclose(w, mi, rtol=0, atol=1e-9 * Lmax)), "pbc:not-minimum-image", f"d={raw.tolist()} L={L.tolist()} -> {w.tolist()} want {mi.tolist()}")
 
     for periodic in (True, False):
         dist = Distance((i, j), periodic=periodic)
@@ -151,12 +159,29 @@ def body_pair(rec, c):
                 rec.check(b3 == b9, f"pair:{name}:box3-vs-box9", f"{b3} vs {b9}")
                 if margin_ok:
                     sh = calc(op, pos + shift, vel, box)
-                    rec.check(close(sh, base, scale + 3 * float(L.max())), f"pair:{name}:image-shift", f"{base} vs {sh} shift={shift.tolist()}")
+                    rec.check(close(sh, base, scale + 3 * Lmax), f"pair:{name}:image-shift", f"{base} vs {sh} shift={shift.tolist()}")
             else:
                 # rotation (non-periodic)
                 R = quat_to_rot(c["quat"])
                 rr = calc(op, pos @ R.T, vel @ R.T, box)
                 rec.check(close(rr, base, scale + 5), f"pair:{name}:rotation", f"{base} vs {rr}")
+            # the same through the engine's calculate_order on a configuration file that carries no box (xyz frames as CP2K
+            # writes them, g96 without a BOX block): the phase point's own box applies, image shifts in the file change nothing
+            if periodic and margin_ok:
+                from infretis.classes.system import System
+
+                eng = _StubEngine.make({"plain": (pos, vel, None), "shifted": (pos + shift, vel, None)})
+                eng.order_function = op
+                vals = []
+                for fname in ("plain", "shifted"):
+                    sy = System()
+                    sy.config, sy.vel_rev, sy.box = (fname, 0), False, box.copy()
+                    try:
+                        vals.append(float(eng.calculate_order(sy)[0]))
+                    except Exception as exc:  # noqa: BLE001
+                        raise Violation(f"pair:{name}:engine-file-without-box:raises:{type(exc).__name__}", repr(exc))
+                rec.check(close(vals[0], base, scale) and close(vals[1], base, scale + 3 * Lmax), f"pair:{name}:image-shift:through-calculate_order-on-a-file-without-box",
+                          f"direct {base}; via engine {vals[0]}; via engine with shifted images {vals[1]}")
             # velocity reversal
             rv = calc(op, pos, -vel, box)
             if name == "Distance":
